@@ -270,6 +270,14 @@ class HierDictDocument(DictDocument):
                     else:
                         retval = inst
 
+                    if (validator is self.SOFT_VALIDATION
+                                and not isinstance(inst, six.string_types)
+                                and isinstance(retval, six.text_type)
+                                and not cls.validate_string(cls, retval)):
+                        # text that came in as bytes (MessagePack bin): the
+                        # string facets apply to what it decodes to
+                        raise ValidationError([key, retval])
+
                 else:
                     retval = self.from_serstr(cls, inst)
 
